@@ -37,6 +37,7 @@ type c08gen struct {
 	rows   int
 	uniq   int
 	nfail  int
+	added  map[string]bool // table has the extra column x
 }
 
 func (g *c08gen) dump() {
@@ -56,6 +57,21 @@ func (g *c08gen) three(t string) bool { return t == "t0" || t == "t1" }
 func (g *c08gen) okStmt() string {
 	t := g.table()
 	g.uniq++
+	if g.r.Bool(0.18) {
+		// statements that rebuild every record of the table (and that a cancellation can hit half way)
+		if g.added == nil {
+			g.added = map[string]bool{}
+		}
+		if g.added[t] {
+			g.added[t] = false
+			return fmt.Sprintf("ALTER TABLE %s DROP x;", t)
+		}
+		if g.r.Bool(0.3) {
+			return fmt.Sprintf("ALTER TABLE %s RENAME n TO n;", t)
+		}
+		g.added[t] = true
+		return fmt.Sprintf("ALTER TABLE %s ADD x DEFAULT n * 2;", t)
+	}
 	if g.three(t) {
 		switch g.r.Intn(4) {
 		case 0:
